@@ -469,28 +469,68 @@ impl fmt::Display for ParseTimestampError {
 impl std::error::Error for ParseTimestampError {}
 
 fn parse_rfc3339(fmt: &str) -> Result<Timestamp, ParseTimestampError> {
-    if fmt.len() > 30 || fmt.len() < 19 {
+    fn digits(digits: &[u8]) -> Result<u32, ParseTimestampError> {
+        let mut value = 0u32;
+
+        for b in digits {
+            if !b.is_ascii_digit() {
+                return Err(ParseTimestampError {});
+            }
+
+            value = value * 10 + u32::from(b - b'0');
+        }
+
+        Ok(value)
+    }
+
+    // Work on bytes so input containing multi-byte characters can't split a char
+    let fmt = fmt.as_bytes();
+
+    if fmt.len() > 30 || fmt.len() < 20 {
         // Invalid length
         return Err(ParseTimestampError {});
     }
 
-    if *fmt.as_bytes().last().unwrap() != b'Z' {
+    if *fmt.last().unwrap() != b'Z' {
         // Non-UTC
         return Err(ParseTimestampError {});
     }
 
-    let years = u16::from_str_radix(&fmt[0..4], 10).map_err(|_| ParseTimestampError {})?;
-    let months = u8::from_str_radix(&fmt[5..7], 10).map_err(|_| ParseTimestampError {})?;
-    let days = u8::from_str_radix(&fmt[8..10], 10).map_err(|_| ParseTimestampError {})?;
-    let hours = u8::from_str_radix(&fmt[11..13], 10).map_err(|_| ParseTimestampError {})?;
-    let minutes = u8::from_str_radix(&fmt[14..16], 10).map_err(|_| ParseTimestampError {})?;
-    let seconds = u8::from_str_radix(&fmt[17..19], 10).map_err(|_| ParseTimestampError {})?;
-    let nanos = if fmt.len() > 19 {
+    if fmt[4] != b'-' || fmt[7] != b'-' || fmt[10] != b'T' || fmt[13] != b':' || fmt[16] != b':' {
+        // Invalid separators
+        return Err(ParseTimestampError {});
+    }
+
+    let years = digits(&fmt[0..4])? as u16;
+    let months = digits(&fmt[5..7])? as u8;
+    let days = digits(&fmt[8..10])? as u8;
+    let hours = digits(&fmt[11..13])? as u8;
+    let minutes = digits(&fmt[14..16])? as u8;
+    let seconds = digits(&fmt[17..19])? as u8;
+    let nanos = if fmt.len() > 20 {
         let subsecond = &fmt[20..fmt.len() - 1];
-        u32::from_str_radix(subsecond, 10).unwrap() * 10u32.pow(9 - subsecond.len() as u32)
+
+        if fmt[19] != b'.' || subsecond.is_empty() {
+            // Invalid subsecond separator, or no subsecond digits
+            return Err(ParseTimestampError {});
+        }
+
+        digits(subsecond)? * 10u32.pow(9 - subsecond.len() as u32)
     } else {
         0
     };
+
+    if months == 0
+        || months > 12
+        || days == 0
+        || days > 31
+        || hours > 23
+        || minutes > 59
+        || seconds > 60
+    {
+        // Out of range
+        return Err(ParseTimestampError {});
+    }
 
     Timestamp::from_parts(Parts {
         years,
